@@ -1010,6 +1010,18 @@ func genC09Inject(r *rand.Rand, tier string, idx int) *World {
 		w.Extra["overlap"] = "1"
 	}
 	w.Extra["update"] = pick(r, "0", "1", "2", "2", "3", "4")
+	if chance(r, 0.12) && n >= 5 {
+		// a replica set that has been active for weeks, slow start practically switched off by a large
+		// increase or a tiny interval: only maxParallelPodCreation limits the creations (and the slow-start
+		// product is far beyond 32 bits)
+		w.Extra["ancient"] = pick(r, "30", "40", "26", "51")
+		if chance(r, 0.5) {
+			e.Strategy.SlowStartInterval, e.Strategy.SlowStartIncrease = "1s", "1000"
+		} else {
+			e.Strategy.SlowStartInterval, e.Strategy.SlowStartIncrease = "10ms", "100%"
+		}
+		e.Strategy.MaxParallel = i32(pick(r, int32(1), 2, 3))
+	}
 	if w.Extra["update"] == "4" {
 		// a node the daemon does not target (stray pods there are clean-up work) and one that joins later
 		w.Nodes = append(w.Nodes, &NodeDef{Name: nodeName(n), Taints: []string{"dedicated:NoSchedule"}})
@@ -1126,6 +1138,17 @@ func bodyC09Inject(s *Sim) {
 		}
 		ds := s.advanceCandidates()
 		s.Advance(ds[r.IntN(len(ds))])
+		if days := 0; i == reqs-2 && s.W.Extra["ancient"] != "" {
+			// weeks later a batch of pods is evicted and collected at once
+			fmt.Sscan(s.W.Extra["ancient"], &days)
+			s.Advance(time.Duration(days) * 24 * time.Hour)
+			for _, p := range s.Store.Pods() {
+				if r.IntN(4) != 0 {
+					s.Store.Remove(objKey{KPod, p.Namespace, p.Name})
+				}
+			}
+			s.Stats.NonVacuous["C09.long-lived-replicaset"]++
+		}
 		for _, rs := range s.Store.ERSs() {
 			s.RunTask(CtrlERS, types.NamespacedName{Namespace: rs.Namespace, Name: rs.Name})
 		}
